@@ -266,12 +266,21 @@ func stems(c *core.Ctx) map[string]bool {
 	for k := range refTypes {
 		delete(drop, k)
 	}
+	// a literal key segment may coincide with an identifier that only the analysed program has (a field
+	// renamed to "active", "state", ...): both readings of the key count
+	blessedOnly := map[string]bool{}
+	for k := range refDrop {
+		if !refTypes[k] {
+			blessedOnly[k] = true
+		}
+	}
 	m := map[string]bool{}
 	for _, o := range c.Obs {
 		if strings.Contains(o.Key, "<floor>") || strings.Contains(o.Key, "/anchors/") || strings.Contains(o.Key, "/internal/") || strings.Contains(o.Key, "/coverage/") {
 			continue
 		}
 		m[stem(o.Key, drop)] = true
+		m[stem(o.Key, blessedOnly)] = true
 	}
 	return m
 }
